@@ -49,6 +49,9 @@ type c02RunParams struct {
 	Body   string `json:"body"`
 	IvUS   int    `json:"iv_us"`
 	DurMS  int    `json:"dur_ms,omitempty"` // kind deadline: the max-duration that ends the run
+	// SetupMark: the second body reports an error through the handle captured in setup (the scenario is then a failed
+	// one; its requests are still requests)
+	SetupMark bool `json:"setup_mark,omitempty"`
 }
 
 func init() {
@@ -207,6 +210,7 @@ func init() {
 				for k := 0; k <= p.StopAt; k++ {
 					p.Values = append(p.Values, pick(r, 0, 1, p.Conc, 3*p.Conc+1, 7, 100))
 				}
+				p.SetupMark = i%4 == 3
 				cse := core.MkCase("C02", "run", i, seed, p)
 				cse.Race = true
 				cse.Procs = pick(r, 1, 2, 16)
@@ -220,6 +224,7 @@ func init() {
 					p.Values = append(p.Values, pick(r, 1, 1, p.Conc, 3*p.Conc+1, 7))
 				}
 				p.DurMS = 120 + r.IntN(240)
+				p.SetupMark = i%3 == 1
 				cse := core.MkCase("C02", "deadline", i, seed, p)
 				cse.Race = i%2 == 0
 				cse.Procs = pick(r, 2, 16)
@@ -937,9 +942,11 @@ func c02Deadline(c *core.Case, o *core.Outcome) {
 	l := engine.NewLog()
 	var started atomic.Int64
 	salt := c.Rng("salt").Uint64()
-	scenario := func(t *f1testing.T) f1testing.RunFn {
+	scenario := func(setupT *f1testing.T) f1testing.RunFn {
 		return func(t *f1testing.T) {
-			started.Add(1)
+			if started.Add(1) == 2 && p.SetupMark {
+				setupT.Errorf("reported through the handle captured in setup")
+			}
 			bodyWork(p.Body, engine.IDOf(t)*2654435761+salt)
 		}
 	}
@@ -998,9 +1005,11 @@ func c02Run(c *core.Case, o *core.Outcome) {
 	defer cancel()
 	var started atomic.Int64
 	salt := c.Rng("salt").Uint64()
-	scenario := func(t *f1testing.T) f1testing.RunFn {
+	scenario := func(setupT *f1testing.T) f1testing.RunFn {
 		return func(t *f1testing.T) {
-			started.Add(1)
+			if started.Add(1) == 2 && p.SetupMark {
+				setupT.Errorf("reported through the handle captured in setup")
+			}
 			bodyWork(p.Body, engine.IDOf(t)*2654435761+salt)
 		}
 	}
